@@ -24,7 +24,7 @@ Options ==
    O("-ylog", <<>>, "yscale", <<"log">>, {"ylim", "yticks", "yticklabels"}),
    O("-leg", <<"Aa,B_b", "One,Two">>, "legend", <<"Aa|B b", "One|Two">>, {}),
    O("-legfs", <<"7", "0">>, "legfs", <<"7", "hidden">>, {"legend", "legloc"}),
-   O("-legloc", <<"lower_left", "center">>, "legloc", <<"lower left", "center">>, {}),
+   O("-legloc", <<"lower_left", "center", "best">>, "legloc", <<"lower left", "center", "best">>, {}),      \* "best", asked for explicitly, is a request like any other
    O("-lc", <<"red,blue", "0.3,0.7">>, "colors", <<"red|blue", "0.3|0.7">>, {}),
    O("-ls", <<"--,:", "-.">>, "linestyles", <<"--|:", "-.|-.">>, {}),
    O("-lw", <<"3,1", "0.5">>, "linewidths", <<"3|1", "0.5|0.5">>, {}),
@@ -66,8 +66,8 @@ Paired(S) == \A a, b \in S : ((a.flag = "-xticklabels" /\ b.flag = "-xticks") \/
 Props == {o.prop : o \in Options} \cup {"format"}
 OptionOf(flag) == CHOOSE o \in Options : o.flag = flag
 
-\* a choice: option + which of its values (1 or 2)
-Choices == {[flag |-> o.flag, k |-> k] : o \in Options, k \in 1..2} \ {[flag |-> o.flag, k |-> 2] : o \in {x \in Options : x.vals = <<>>}}
+\* a choice: option + which of its values (two for most options)
+Choices == {ch \in {[flag |-> o.flag, k |-> k] : o \in Options, k \in 1..3} : ch.k <= (IF OptionOf(ch.flag).vals = <<>> THEN 1 ELSE Len(OptionOf(ch.flag).vals))}
 Tokens(ch) == LET o == OptionOf(ch.flag) IN IF o.vals = <<>> THEN <<o.flag>> ELSE <<o.flag, o.vals[ch.k]>>
 Owned(S) == {OptionOf(ch.flag).prop : ch \in S}
 Disturbed(S) == UNION {OptionOf(ch.flag).also : ch \in S}
